@@ -48,6 +48,7 @@ type CrashRec struct {
 	freshSeg     bool // the step in flight has started a new data segment (its first write went to offset 0)
 	freshCont    int
 	rootPend     bool
+	Inj          *injector // optional: makes chosen record writes of the step in flight fail (C10/C11 workloads with I/O faults)
 	rootCont     map[int]bool
 
 	Torn     bool
@@ -181,15 +182,23 @@ func (cr *CrashRec) onEvent(ev *FSEvent) (bool, int, error) {
 	if cr.infl && ev.Op == "write" && strings.Contains(ev.Path, "bpt/root/") {
 		cr.rootPend = true
 	}
-	if cr.Power && ev.Op == "write" {
+	failed, nWritten := false, 0
+	var ferr error
+	if cr.Inj != nil {
+		failed, nWritten, ferr = cr.Inj.onEvent(ev)
+	}
+	if cr.Power && ev.Op == "write" && (!failed || nWritten > 0) {
 		e := *ev
+		if failed {
+			e.Data = e.Data[:nWritten] // the write failed after this prefix
+		}
 		cr.lastUnsync[ev.Path] = &e
 	}
 	if cr.Power && ev.Op == "remove" {
 		// the directory is never synced by the library: a removal may or may not be durable.
 		// The shadow keeps the file (removal undone); images choose.
 	}
-	return false, 0, nil
+	return failed, nWritten, ferr
 }
 
 func (cr *CrashRec) powerImages(cur *Snapshot, ev *FSEvent, base Image) {
